@@ -13,6 +13,7 @@
   Props/C03.lean and Props/C07.lean derive their statements from `NpRel` by list reasoning.
 -/
 import Wormhole.Inv.NpSpec
+import Wormhole.Reach
 
 namespace Wormhole
 
@@ -526,6 +527,576 @@ theorem expire_sweep {s : Sys} (now : Time) (fault : Bool) (hn : s.db.NpOk)
         exact (pruneApps_sweep _ e hn hA (Chan.NpSweep.refl _)).2
       · rename_i s1 e
         exact (pruneApps_sweep _ e hn hA (Chan.NpSweep.refl _)).2
+
+
+/-! ### the handlers of server_websocket.py -/
+
+theorem AllRel.refl' (lbl : NpLbl) {s : Sys} (hA : DbAll (Chan.NpRel lbl s.db) s) : AllRel lbl s.db s :=
+  ⟨hA, Chan.NpRel.refl _ _⟩
+
+theorem handleClaim_rel {s : Sys} (x : Conn) (a σ : String) (t : Time) (n fresh : String)
+    (hb : s.db.IdsBounded) (hA : DbAll (Chan.NpRel (.claim a n σ fresh t) s.db) s) :
+    AllRel (.claim a n σ fresh t) s.db (s.handleClaim x a σ t (some n) fresh) := by
+  unfold handleClaim
+  dsimp only
+  split
+  · exact AllRel.refl' _ hA
+  · split
+    all_goals
+      rename_i e
+      have h1 := claimNameplate_rel e hb hA
+    · exact h1.send _ _
+    · exact h1.sendError _ _
+    · exact h1.sendError _ _
+    · exact h1.internalErr _ _
+
+/-- the kind of an `allocate` -/
+def allocLbl (d : Chan) (a σ : String) (t : Time) (pick : Nat) (draws : List Nat) (fresh : String) : NpLbl :=
+  match findAvailable (d.namesOfApp a) pick draws with
+  | some n => .claim a n σ fresh t
+  | none => .quiet
+
+theorem handleAllocate_rel {s : Sys} (x : Conn) (a σ : String) (t : Time) (pick draws fresh)
+    (hb : s.db.IdsBounded) (hA : DbAll (Chan.NpRel (allocLbl s.db a σ t pick draws fresh) s.db) s) :
+    AllRel (allocLbl s.db a σ t pick draws fresh) s.db (s.handleAllocate x a σ t pick draws fresh) := by
+  unfold handleAllocate
+  split
+  · exact AllRel.refl' _ hA
+  · unfold allocLbl at hA ⊢
+    cases e : findAvailable (s.db.namesOfApp a) pick draws with
+    | none =>
+      rw [e] at hA
+      exact AllRel.refl' _ hA
+    | some name =>
+      rw [e] at hA
+      dsimp only at hA ⊢
+      split
+      all_goals
+        rename_i e'
+        have h1 := claimNameplate_rel e' hb hA
+      · exact (h1.updConn _ _).send _ _
+      · exact h1.internalErr _ _
+      · exact h1.internalErr _ _
+      · exact h1.internalErr _ _
+
+/-- the nameplate a `release` resolves to -/
+def releaseTarget (x : Conn) (n : Option String) : Option String :=
+  match n with
+  | some n => some n
+  | none => x.nameplateId
+
+def releaseLbl (x : Conn) (a σ : String) (n : Option String) : NpLbl :=
+  match releaseTarget x n with
+  | some n => .release a n σ
+  | none => .quiet
+
+theorem handleRelease_rel {s : Sys} (x : Conn) (a σ : String) (t : Time) (n : Option String)
+    (hA : DbAll (Chan.NpRel (releaseLbl x a σ n) s.db) s) :
+    AllRel (releaseLbl x a σ n) s.db (s.handleRelease x a σ t n) := by
+  unfold handleRelease
+  have go : ∀ name : String, releaseLbl x a σ n = .release a name σ →
+      AllRel (releaseLbl x a σ n) s.db
+      (match (s.updConn x.id (fun y => { y with didRelease := true })).releaseNameplate a name σ t with
+       | (s1, true) => s1.send x.id .released
+       | (s1, false) => s1.internalErr x.id "IndexError") := by
+    intro name hl
+    rw [hl] at hA ⊢
+    split
+    all_goals
+      rename_i e
+      have h1 := releaseNameplate_rel e hA
+    · exact h1.send _ _
+    · exact h1.internalErr _ _
+  split
+  · exact AllRel.refl' _ hA
+  · dsimp only
+    split
+    · split
+      · exact AllRel.refl' _ hA
+      · exact go _ rfl
+    · exact go _ rfl
+    · rename_i held hh
+      exact go _ (by simp [releaseLbl, releaseTarget, hh])
+    · exact AllRel.refl' _ hA
+
+/-- the mailbox a `close` acts on: the handle if the connection has one, else the named /
+    remembered id -/
+def closeTarget (x : Conn) (m : Option String) : Option String :=
+  match x.mailbox with
+  | some h => some h
+  | none =>
+    match m with
+    | some m => some m
+    | none => x.mailboxId
+
+def closeLbl (x : Conn) (a : String) (m : Option String) : NpLbl :=
+  match closeTarget x m with
+  | some h => .close a h
+  | none => .quiet
+
+theorem handleClose_rel {s : Sys} (x : Conn) (a σ : String) (t : Time) (m : Option String) (mood : Option String)
+    (hA : DbAll (Chan.NpRel (closeLbl x a m) s.db) s) :
+    AllRel (closeLbl x a m) s.db (s.handleClose x a σ t m mood) := by
+  unfold handleClose
+  have tail : ∀ (s1 : Sys) (r : OpenRes) (hd : String), closeLbl x a m = .close a hd →
+      AllRel (.close a hd) s.db s1 → s1.db.npPart = s.db.npPart →
+      AllRel (closeLbl x a m) s.db
+      (match ((s1, r, hd) : Sys × OpenRes × String) with
+       | (s1, .crowded, _) => s1.sendError x.id "crowded"
+       | (s1, .integrity, _) => s1.internalErr x.id "IntegrityError"
+       | (s1, .ok, h) =>
+         let s2 := s1.updConn x.id (fun y => { y with listening := false, didClose := true })
+         match s2.mailboxClose a h σ mood t with
+         | (s3, false) => s3.internalErr x.id "IndexError"
+         | (s3, true) => (s3.updConn x.id (fun y => { y with mailbox := none })).send x.id .closed) := by
+    intro s1 r hd hl h1 hnp
+    rw [hl]
+    cases r
+    · dsimp only
+      split
+      all_goals
+        rename_i e
+        have h3 := mailboxClose_rel (d0 := s.db) e hnp h1.1
+      · exact h3.internalErr _ _
+      · exact (h3.updConn _ _).send _ _
+    · exact h1.sendError _ _
+    · exact h1.internalErr _ _
+  have go : ∀ mb : String, (x.mailbox = none → closeLbl x a m = .close a mb) →
+      AllRel (closeLbl x a m) s.db
+      (match (match x.mailbox with
+          | some h => (s, OpenRes.ok, h)
+          | none =>
+            match s.openMailbox a mb σ t with
+            | (s1, r) => (s1.updConn x.id (fun y => if r = OpenRes.ok then { y with mailbox := some mb } else y), r, mb)
+          : Sys × OpenRes × String) with
+       | (s1, .crowded, _) => s1.sendError x.id "crowded"
+       | (s1, .integrity, _) => s1.internalErr x.id "IntegrityError"
+       | (s1, .ok, h) =>
+         let s2 := s1.updConn x.id (fun y => { y with listening := false, didClose := true })
+         match s2.mailboxClose a h σ mood t with
+         | (s3, false) => s3.internalErr x.id "IndexError"
+         | (s3, true) => (s3.updConn x.id (fun y => { y with mailbox := none })).send x.id .closed) := by
+    intro mb hmb
+    cases hx : x.mailbox with
+    | some hd =>
+      have hl : closeLbl x a m = .close a hd := by simp [closeLbl, closeTarget, hx]
+      exact tail s .ok hd hl (hl ▸ AllRel.refl' _ hA) rfl
+    | none =>
+      dsimp only
+      have hl := hmb hx
+      cases e : s.openMailbox a mb σ t with
+      | mk s1 r =>
+        obtain ⟨h1, hnp⟩ := openMailbox_allRel (lbl := .close a mb) (by simp) e rfl (hl ▸ hA)
+        exact tail _ r mb hl (h1.updConn _ _) hnp
+  split
+  · exact AllRel.refl' _ hA
+  · dsimp only
+    split
+    · split
+      · exact AllRel.refl' _ hA
+      · exact go _ (fun hx => by simp [closeLbl, closeTarget, hx])
+    · exact go _ (fun hx => by simp [closeLbl, closeTarget, hx])
+    · rename_i held hh
+      exact go _ (fun hx => by simp [closeLbl, closeTarget, hx, hh])
+    · exact AllRel.refl' _ hA
+
+theorem AllRel.replay {lbl d0} {s : Sys} (h : AllRel lbl d0 s) (c a mb) : AllRel lbl d0 (s.replay c a mb) := by
+  unfold Sys.replay
+  obtain ⟨n1, n2⟩ := NoCommit.foldl_send (fun _ => c)
+    (fun m : Message => Frame.message m.side m.phase m.body m.rx m.msgId)
+    ((s.db.messagesOf a mb).mergeSort (fun a b => decide (a.rx ≤ b.rx))) s
+  exact h.noCommit n1 n2
+
+theorem AllRel.broadcast {lbl d0} {s : Sys} (h : AllRel lbl d0 s) (a mb f) : AllRel lbl d0 (s.broadcast a mb f) := by
+  unfold Sys.broadcast
+  obtain ⟨n1, n2⟩ := NoCommit.foldl_send (fun c : Nat => c) (fun _ => f) (s.listeners a mb) s
+  exact h.noCommit n1 n2
+
+theorem handleOpen_rel {s : Sys} (x : Conn) (a σ : String) (t : Time) (m : Option String)
+    (hA : DbAll (Chan.NpRel .quiet s.db) s) : AllRel .quiet s.db (s.handleOpen x a σ t m) := by
+  unfold handleOpen
+  split
+  · exact AllRel.refl' _ hA
+  · split
+    · exact AllRel.refl' _ hA
+    · dsimp only
+      split
+      all_goals
+        rename_i e
+        obtain ⟨h1, _⟩ := openMailbox_allRel (lbl := .quiet) (d0 := s.db) (by simp) e rfl hA
+      · exact h1.sendError _ _
+      · exact h1.internalErr _ _
+      · exact (h1.updConn _ _).replay _ _ _
+
+theorem handleAdd_rel {s : Sys} (x : Conn) (a σ : String) (t : Time) (id : Val) (ph bd : Option Val)
+    (hA : DbAll (Chan.NpRel .quiet s.db) s) : AllRel .quiet s.db (s.handleAdd x a σ t id ph bd) := by
+  unfold handleAdd
+  split
+  · exact AllRel.refl' _ hA
+  · split
+    · exact AllRel.refl' _ hA
+    · split
+      · exact AllRel.refl' _ hA
+      · exact (addMessage_allRel (lbl := .quiet) (d0 := s.db) (by simp) s _ _ _ _ _ _ _ rfl hA).broadcast _ _ _
+
+theorem handleBind_rel {s : Sys} (x : Conn) (t : Time) (a sd i v)
+    (hA : DbAll (Chan.NpRel .quiet s.db) s) : AllRel .quiet s.db (s.handleBind x t a sd i v) := by
+  unfold handleBind
+  split
+  · exact AllRel.refl' _ hA
+  · split
+    · exact AllRel.refl' _ hA
+    · split
+      · exact AllRel.refl' _ hA
+      · refine ⟨?_, by simp; exact Chan.NpRel.refl _ _⟩
+        unfold logClientVersion
+        split
+        · exact DbAll.ucommit hA
+        · exact hA
+
+
+/-! ### `onMessage`, `step` -/
+
+/-- the kind of command `cmd` received at time `t` on connection record `x` -/
+def cmdLbl (d : Chan) (x : Conn) (t : Time) : Cmd → NpLbl
+  | .claim (some n) fresh =>
+    match x.app with
+    | some a => .claim a n (x.side.getD "") fresh t
+    | none => .quiet
+  | .allocate pick draws fresh =>
+    match x.app with
+    | some a => allocLbl d a (x.side.getD "") t pick draws fresh
+    | none => .quiet
+  | .release n =>
+    match x.app with
+    | some a => releaseLbl x a (x.side.getD "") n
+    | none => .quiet
+  | .close m _ =>
+    match x.app with
+    | some a => closeLbl x a m
+    | none => .quiet
+  | _ => .quiet
+
+end Sys.Np
+
+/-- **the kind of an operation** in state `s` (a crashed operation has the kind of the
+    operation it cuts short) -/
+def Sys.npLbl (s : Sys) : Op → NpLbl
+  | .recv c t _ cmd =>
+    match s.findConn c with
+    | some x => Sys.Np.cmdLbl s.db x t cmd
+    | none => .quiet
+  | .sweep _ fault => if fault then .quiet else .sweep
+  | .crashIn _ op => s.npLbl op
+  | _ => .quiet
+
+/-- the operation a (possibly crashed) operation consists of -/
+def Op.plain : Op → Op
+  | .crashIn _ op => op.plain
+  | op => op
+
+namespace Sys.Np
+
+/-- a sweep whose first database access fails changes no table -/
+theorem expire_fault_rel {s : Sys} (now : Time) (hA : DbAll (Chan.NpRel .quiet s.db) s) :
+    AllRel .quiet s.db (s.expire now true) := by
+  have key : ∀ s1 : Sys, AllRel .quiet s.db s1 → AllRel .quiet s.db (s1.dumpStats now) := by
+    intro s1 h1
+    refine ⟨?_, by simpa using h1.2⟩
+    unfold dumpStats
+    split
+    · exact DbAll.ucommit h1.1
+    · exact h1.1
+  simp only [Sys.expire, ↓reduceIte]
+  exact key _ (AllRel.refl' _ hA)
+
+theorem onMessage_rel {s : Sys} (c : Nat) (t : Time) (id : Val) (cmd : Cmd) (hb : s.db.IdsBounded)
+    (hA : DbAll (Chan.NpRel (s.npLbl (.recv c t id cmd)) s.db) s) :
+    AllRel (s.npLbl (.recv c t id cmd)) s.db (s.onMessage c t id cmd) := by
+  unfold Sys.onMessage
+  unfold Sys.npLbl at hA ⊢
+  cases hx : s.findConn c with
+  | none => exact AllRel.refl' _ (by simpa [hx] using hA)
+  | some x =>
+    simp only [hx] at hA ⊢
+    have hA' : ∀ L, DbAll (Chan.NpRel L s.db) s → DbAll (Chan.NpRel L (s.send c (.ack id)).db) (s.send c (.ack id)) :=
+      fun _ h => h
+    cases cmd with
+    | noType => exact AllRel.refl' _ hA
+    | ping v =>
+      dsimp only
+      unfold handlePing
+      split <;> exact AllRel.refl' _ hA
+    | bind a sd i v => exact handleBind_rel (s := s.send c (.ack id)) x t a sd i v hA
+    | unknown =>
+      dsimp only
+      split <;> exact AllRel.refl' _ hA
+    | list =>
+      dsimp only
+      split <;> exact AllRel.refl' _ hA
+    | allocate pick draws fresh =>
+      dsimp only [cmdLbl] at hA ⊢
+      cases ha : x.app with
+      | none => simp only [ha] at hA ⊢; exact AllRel.refl' _ hA
+      | some a =>
+        simp only [ha] at hA ⊢
+        exact handleAllocate_rel (s := s.send c (.ack id)) x a _ t pick draws fresh hb hA
+    | claim n fresh =>
+      cases ha : x.app with
+      | none =>
+        dsimp only
+        exact AllRel.refl' _ hA
+      | some a =>
+        cases n with
+        | none =>
+          dsimp only
+          unfold handleClaim
+          exact AllRel.refl' _ hA
+        | some n =>
+          dsimp only [cmdLbl] at hA ⊢
+          simp only [ha] at hA ⊢
+          exact handleClaim_rel (s := s.send c (.ack id)) x a _ t n fresh hb hA
+    | release n =>
+      dsimp only [cmdLbl] at hA ⊢
+      cases ha : x.app with
+      | none => simp only [ha] at hA ⊢; exact AllRel.refl' _ hA
+      | some a =>
+        simp only [ha] at hA ⊢
+        exact handleRelease_rel (s := s.send c (.ack id)) x a _ t n hA
+    | open_ m =>
+      dsimp only [cmdLbl] at hA ⊢
+      split
+      · exact AllRel.refl' _ hA
+      · exact handleOpen_rel (s := s.send c (.ack id)) x _ _ t m hA
+    | add ph bd =>
+      dsimp only [cmdLbl] at hA ⊢
+      split
+      · exact AllRel.refl' _ hA
+      · exact handleAdd_rel (s := s.send c (.ack id)) x _ _ t id ph bd hA
+    | close m mood =>
+      dsimp only [cmdLbl] at hA ⊢
+      cases ha : x.app with
+      | none => simp only [ha] at hA ⊢; exact AllRel.refl' _ hA
+      | some a =>
+        simp only [ha] at hA ⊢
+        exact handleClose_rel (s := s.send c (.ack id)) x a _ t m mood hA
+
+theorem npLbl_clear (s : Sys) (op : Op) :
+    ({ s with out := [], snaps := [] } : Sys).npLbl op = s.npLbl op := by
+  induction op with
+  | crashIn k op ih => exact ih
+  | _ => rfl
+
+/-- a plain operation from a synced state: its final database and its commit points -/
+theorem stepPlain_rel {s : Sys} (op : Op) (hn : s.db.NpOk)
+    (hA : DbAll (Chan.NpRel (s.npLbl op) s.db) s) :
+    AllRel (s.npLbl op) s.db (s.stepPlain op) := by
+  cases op with
+  | connect c => exact AllRel.refl' _ hA
+  | recv c t id cmd => exact onMessage_rel c t id cmd hn.bounded hA
+  | drop c => exact AllRel.refl' _ hA
+  | sweep now fault =>
+    cases fault with
+    | true => exact expire_fault_rel now hA
+    | false => exact expire_sweep now false hn hA
+  | restart t => exact ⟨hA, hA.1⟩
+  | crashIn k op => exact AllRel.refl' _ hA
+
+/-- **Every step** (crashes included) from a state with nothing uncommitted ends in a database
+    that the kind of the operation allows. -/
+theorem step_rel {s : Sys} (hs : s.Synced) (hn : s.db.NpOk) (op : Op) :
+    Chan.NpRel (s.npLbl op) s.db (s.step op).db := by
+  have h0 : ∀ L, DbAll (Chan.NpRel L s.db) ({ s with out := [], snaps := [] } : Sys) := by
+    intro L
+    refine ⟨?_, by intro p hp; simp at hp⟩
+    show Chan.NpRel L s.db s.disk
+    rw [← hs.1]; exact Chan.NpRel.refl _ _
+  have hplain : ∀ op' : Op, AllRel (s.npLbl op') s.db (({ s with out := [], snaps := [] } : Sys).stepPlain op') := by
+    intro op'
+    have := stepPlain_rel (s := { s with out := [], snaps := [] }) op' hn (by rw [npLbl_clear]; exact h0 _)
+    rw [npLbl_clear] at this
+    exact this
+  cases op with
+  | crashIn k op' =>
+    obtain ⟨⟨hd, hsn⟩, _⟩ := hplain op'
+    show Chan.NpRel (s.npLbl op') s.db _
+    unfold Sys.step
+    dsimp only
+    split
+    · show Chan.NpRel _ s.db s.disk
+      rw [← hs.1]; exact Chan.NpRel.refl _ _
+    · rename_i p _ hp
+      exact hsn p (List.mem_of_getElem? hp)
+    · exact hd
+  | connect c => exact (hplain (.connect c)).2
+  | recv c t id cmd => exact (hplain (.recv c t id cmd)).2
+  | drop c => exact (hplain (.drop c)).2
+  | sweep now fault => exact (hplain (.sweep now fault)).2
+  | restart t => exact (hplain (.restart t)).2
+
+
+/-! ### what a label says about the operation -/
+
+theorem cmdLbl_claim {d : Chan} {x : Conn} {t t' : Time} {cmd : Cmd} {a n σ fresh : String}
+    (h : cmdLbl d x t cmd = .claim a n σ fresh t') :
+    t' = t ∧ x.app = some a ∧ x.side.getD "" = σ ∧
+    (cmd = .claim (some n) fresh ∨
+      ∃ pick draws, cmd = .allocate pick draws fresh ∧ findAvailable (d.namesOfApp a) pick draws = some n) := by
+  cases cmd with
+  | claim n' fresh' =>
+    cases n' with
+    | none => simp [cmdLbl] at h
+    | some n' =>
+      cases ha : x.app <;> simp [cmdLbl, ha] at h
+      obtain ⟨rfl, rfl, rfl, rfl, rfl⟩ := h
+      exact ⟨rfl, rfl, rfl, Or.inl rfl⟩
+  | allocate pick draws fresh' =>
+    cases ha : x.app <;> simp [cmdLbl, ha, allocLbl] at h
+    split at h
+    · rename_i n' hf
+      simp at h
+      obtain ⟨rfl, rfl, rfl, rfl, rfl⟩ := h
+      exact ⟨rfl, rfl, rfl, Or.inr ⟨pick, draws, rfl, hf⟩⟩
+    · simp at h
+  | release n' =>
+    cases ha : x.app <;> simp [cmdLbl, ha, releaseLbl] at h
+    cases hr : releaseTarget x n' <;> simp [hr] at h
+  | close m mood =>
+    cases ha : x.app <;> simp [cmdLbl, ha, closeLbl] at h
+    cases hr : closeTarget x m <;> simp [hr] at h
+  | _ => simp [cmdLbl] at h
+
+theorem cmdLbl_release {d : Chan} {x : Conn} {t : Time} {cmd : Cmd} {a n σ : String}
+    (h : cmdLbl d x t cmd = .release a n σ) :
+    x.app = some a ∧ x.side.getD "" = σ ∧ ∃ nm, cmd = .release nm ∧ releaseTarget x nm = some n := by
+  cases cmd with
+  | claim n' fresh' =>
+    cases n' with
+    | none => simp [cmdLbl] at h
+    | some n' => cases ha : x.app <;> simp [cmdLbl, ha] at h
+  | allocate pick draws fresh' =>
+    cases ha : x.app <;> simp [cmdLbl, ha, allocLbl] at h
+    split at h <;> simp at h
+  | release n' =>
+    cases ha : x.app <;> simp [cmdLbl, ha, releaseLbl] at h
+    cases hr : releaseTarget x n' <;> simp [hr] at h
+    obtain ⟨rfl, rfl, rfl⟩ := h
+    exact ⟨rfl, rfl, n', rfl, hr⟩
+  | close m mood =>
+    cases ha : x.app <;> simp [cmdLbl, ha, closeLbl] at h
+    cases hr : closeTarget x m <;> simp [hr] at h
+  | _ => simp [cmdLbl] at h
+
+theorem cmdLbl_close {d : Chan} {x : Conn} {t : Time} {cmd : Cmd} {a hd : String}
+    (h : cmdLbl d x t cmd = .close a hd) :
+    x.app = some a ∧ ∃ m mood, cmd = .close m mood ∧ closeTarget x m = some hd := by
+  cases cmd with
+  | claim n' fresh' =>
+    cases n' with
+    | none => simp [cmdLbl] at h
+    | some n' => cases ha : x.app <;> simp [cmdLbl, ha] at h
+  | allocate pick draws fresh' =>
+    cases ha : x.app <;> simp [cmdLbl, ha, allocLbl] at h
+    split at h <;> simp at h
+  | release n' =>
+    cases ha : x.app <;> simp [cmdLbl, ha, releaseLbl] at h
+    cases hr : releaseTarget x n' <;> simp [hr] at h
+  | close m mood =>
+    cases ha : x.app <;> simp [cmdLbl, ha, closeLbl] at h
+    cases hr : closeTarget x m <;> simp [hr] at h
+    obtain ⟨rfl, rfl⟩ := h
+    exact ⟨rfl, m, mood, rfl, hr⟩
+  | _ => simp [cmdLbl] at h
+
+theorem cmdLbl_ne_sweep {d : Chan} {x : Conn} {t : Time} {cmd : Cmd} : cmdLbl d x t cmd ≠ .sweep := by
+  intro h
+  cases cmd with
+  | claim n' fresh' =>
+    cases n' with
+    | none => simp [cmdLbl] at h
+    | some n' => cases ha : x.app <;> simp [cmdLbl, ha] at h
+  | allocate pick draws fresh' =>
+    cases ha : x.app <;> simp [cmdLbl, ha, allocLbl] at h
+    split at h <;> simp at h
+  | release n' =>
+    cases ha : x.app <;> simp [cmdLbl, ha, releaseLbl] at h
+    cases hr : releaseTarget x n' <;> simp [hr] at h
+  | close m mood =>
+    cases ha : x.app <;> simp [cmdLbl, ha, closeLbl] at h
+    cases hr : closeTarget x m <;> simp [hr] at h
+  | _ => simp [cmdLbl] at h
+
+/-- a step of kind `claim a n σ fresh t` is (a crash of) a `claim` of `n`, or an `allocate` that
+    picks `n`, at time `t` with generated id `fresh`, received on a connection bound to `a`
+    with side `σ` -/
+theorem npLbl_claim {s : Sys} {op : Op} {a n σ fresh : String} {t : Time}
+    (h : s.npLbl op = .claim a n σ fresh t) :
+    ∃ c id cmd x, op.plain = .recv c t id cmd ∧ s.findConn c = some x ∧ x.app = some a ∧
+      x.side.getD "" = σ ∧ op.fresh? = some fresh ∧
+      (cmd = .claim (some n) fresh ∨
+        ∃ pick draws, cmd = .allocate pick draws fresh ∧
+          findAvailable (s.db.namesOfApp a) pick draws = some n) := by
+  induction op with
+  | crashIn k op ih => exact ih h
+  | recv c t' id cmd =>
+    unfold Sys.npLbl at h
+    cases hx : s.findConn c with
+    | none => simp [hx] at h
+    | some x =>
+      simp only [hx] at h
+      obtain ⟨rfl, h1, h2, h3⟩ := cmdLbl_claim h
+      refine ⟨c, id, cmd, x, rfl, hx, h1, h2, ?_, h3⟩
+      rcases h3 with rfl | ⟨p, dr, rfl, _⟩ <;> rfl
+  | sweep now fault => cases fault <;> simp [Sys.npLbl] at h
+  | _ => simp [Sys.npLbl] at h
+
+theorem npLbl_release {s : Sys} {op : Op} {a n σ : String} (h : s.npLbl op = .release a n σ) :
+    ∃ c t id nm x, op.plain = .recv c t id (.release nm) ∧ s.findConn c = some x ∧ x.app = some a ∧
+      x.side.getD "" = σ ∧ releaseTarget x nm = some n := by
+  induction op with
+  | crashIn k op ih => exact ih h
+  | recv c t' id cmd =>
+    unfold Sys.npLbl at h
+    cases hx : s.findConn c with
+    | none => simp [hx] at h
+    | some x =>
+      simp only [hx] at h
+      obtain ⟨h1, h2, nm, rfl, h3⟩ := cmdLbl_release h
+      exact ⟨c, t', id, nm, x, rfl, hx, h1, h2, h3⟩
+  | sweep now fault => cases fault <;> simp [Sys.npLbl] at h
+  | _ => simp [Sys.npLbl] at h
+
+theorem npLbl_close {s : Sys} {op : Op} {a hd : String} (h : s.npLbl op = .close a hd) :
+    ∃ c t id m mood x, op.plain = .recv c t id (.close m mood) ∧ s.findConn c = some x ∧ x.app = some a ∧
+      closeTarget x m = some hd := by
+  induction op with
+  | crashIn k op ih => exact ih h
+  | recv c t' id cmd =>
+    unfold Sys.npLbl at h
+    cases hx : s.findConn c with
+    | none => simp [hx] at h
+    | some x =>
+      simp only [hx] at h
+      obtain ⟨h1, m, mood, rfl, h3⟩ := cmdLbl_close h
+      exact ⟨c, t', id, m, mood, x, rfl, hx, h1, h3⟩
+  | sweep now fault => cases fault <;> simp [Sys.npLbl] at h
+  | _ => simp [Sys.npLbl] at h
+
+theorem npLbl_sweep {s : Sys} {op : Op} (h : s.npLbl op = .sweep) : ∃ now, op.plain = .sweep now false := by
+  induction op with
+  | crashIn k op ih => exact ih h
+  | recv c t' id cmd =>
+    unfold Sys.npLbl at h
+    cases hx : s.findConn c with
+    | none => simp [hx] at h
+    | some x =>
+      simp only [hx] at h
+      exact absurd h cmdLbl_ne_sweep
+  | sweep now fault =>
+    cases fault with
+    | true => simp [Sys.npLbl] at h
+    | false => exact ⟨now, rfl⟩
+  | _ => simp [Sys.npLbl] at h
 
 end Sys.Np
 end Wormhole
